@@ -1,7 +1,7 @@
 (* Extraction of the executable models to OCaml.  ExtrOcamlBasic only: bool, option, list,
    prod, unit, sumbool are mapped to OCaml's; N, positive, nat, Z stay the extracted datatypes. *)
 Require Import ExtrOcamlBasic.
-From SKV Require Import Params Base.Crc32 Codec.Wal Codec.WalInst Base.Lex Txn.WriteSet Spec.Store Spec.Cursor Spec.Machine Lsm.CompactKey Misc.Lock Misc.LockInst Txn.RangeIter Conc.Oracle Conc.CommitSeq Misc.OMap Misc.BptKey Misc.Pages Misc.BptInst.
+From SKV Require Import Params Base.Crc32 Codec.Wal Codec.WalInst Base.Lex Txn.WriteSet Spec.Store Spec.Cursor Spec.Machine Lsm.CompactKey Misc.Lock Misc.LockInst Txn.RangeIter Conc.Oracle Conc.CommitSeq Misc.OMap Misc.BptKey Misc.Pages Misc.BptInst Codec.IKey Codec.Separator Codec.Bloom Codec.Table.
 Extraction Language OCaml.
 Extraction "skv_model.ml"
   WalInst.wal_sessions WalInst.wal_read_all WalInst.wal_repair WalInst.wal_known_unparsed_tail WalInst.wal_params_ok WalInst.WB
@@ -17,4 +17,12 @@ Extraction "skv_model.ml"
   Pages.t_page Pages.t_stack Pages.p_total Pages.p_count Pages.p_chain Pages.p_head
   BptInst.bpt_init BptInst.bpt_alloc BptInst.bpt_free BptInst.bpt_leaf_ovf_pages BptInst.bpt_params_ok
   Params.BPT_PAGE_SIZE Params.BPT_TRUNK_MAX_ENTRIES Params.BPT_OVERFLOW_CAP Params.BPT_LEAF_MIN_LOCAL Params.BPT_LEAF_MAX_LOCAL
-  Params.BPT_INT_MIN_LOCAL Params.BPT_INT_MAX_LOCAL.
+  Params.BPT_INT_MIN_LOCAL Params.BPT_INT_MAX_LOCAL
+  Separator.bw_separator Separator.bw_successor Separator.ik_separator_enc Separator.ik_successor_enc
+  IKey.ik_encode IKey.ik_decode IKey.ik_cmp
+  Bloom.bloom_create Bloom.bloom_may_contain Bloom.hash32 Bloom.bloom_hash32
+  Table.build_table Table.table_get Table.t_new Table.t_seek_first Table.t_seek_last Table.t_seek Table.t_next Table.t_prev
+  Table.t_valid Table.t_entry Table.is_key_in_key_range Table.is_before_range Table.is_after_range Table.overlaps_with_range
+  Params.IK_SEQ_NUM_MAX Params.IK_TIMESTAMP_MAX Params.IK_KIND_DELETE Params.IK_KIND_SOFTDELETE Params.IK_KIND_SET Params.IK_KIND_MERGE
+  Params.IK_KIND_LOGDATA Params.IK_KIND_RANGEDELETE Params.IK_KIND_REPLACE Params.IK_KIND_SEPARATOR Params.IK_KIND_MAX Params.IK_KIND_INVALID
+  Params.TBL_BLOCK_CKSUM_LEN Params.TBL_BLOCK_COMPRESS_LEN Params.BLOOM_BITS_PER_KEY Params.BLOOM_K.
